@@ -24,6 +24,7 @@ class Env:
         self.open_hook = None        # f(path:str, mode:str) -> None | Exception | file-like
         self.open_calls = 0
         self.unlink_hook = None      # f(op:str, path:str) -> None | Exception   (os.unlink/remove/rename/replace)
+        self.mmap_hook = None        # f(fileno:int) -> None, called after a file mapping has been created
 
 
 ENV = Env()
@@ -102,7 +103,7 @@ def install():
 
     def _removal(op):
         def f(path, *a, **k):
-            if ENV.unlink_hook is not None and not isinstance(path, int):
+            if ENV is not None and ENV.unlink_hook is not None and not isinstance(path, int):
                 ex = ENV.unlink_hook(op, _s(path))
                 if ex is not None:
                     raise ex
@@ -110,6 +111,18 @@ def install():
         f.__name__ = op
         return f
 
+    import mmap as _mmap
+    REAL["mmap"] = _mmap.mmap
+
+    class vmmap(_mmap.mmap):
+        def __new__(cls, fileno, length, *a, **k):
+            m = super().__new__(cls, fileno, length, *a, **k)
+            if ENV.mmap_hook is not None and isinstance(fileno, int) and fileno >= 0:
+                ENV.mmap_hook(fileno)
+            return m
+
+    vmmap.__name__ = vmmap.__qualname__ = "mmap"
+    _mmap.mmap = vmmap
     os.unlink, os.remove, os.rename, os.replace = _removal("unlink"), _removal("remove"), _removal("rename"), _removal("replace")
     time.time = vtime
     os.scandir = scandir
